@@ -455,6 +455,19 @@ class StdioClient:
             raise
 
     async def __aexit__(self, exc_type, exc, tb):
+        completed = False
+        try:
+            result = await self._shutdown()
+            completed = True
+            return result
+        finally:
+            # When the surrounding scope is being cancelled the awaits in _shutdown
+            # raise at once; the child must still be terminated (shielded).
+            if not completed and self.process and self.process.returncode is None:
+                with anyio.CancelScope(shield=True):
+                    await self._terminate_process()
+
+    async def _shutdown(self):
         """COMPLETE FIXED VERSION: Handle shutdown without JSON or cancel scope errors."""
         try:
             # Close outgoing stream to signal stdin_writer to exit
